@@ -192,6 +192,7 @@ type client struct {
 	close        chan struct{}
 	closed       chan struct{}
 	connected    chan struct{}
+	authNext     chan struct{} // tells the read loop to read one more packet (the client's AUTH answer) before the connection is established
 	status       int32
 	// if 1, when client close, the session expiry interval will be ignored and the session will be removed.
 	forceRemoveSession int32
@@ -417,6 +418,7 @@ func (client *client) tryDecServerQuota() error {
 
 func (client *client) readLoop() {
 	var err error
+	var unaccounted []packets.Packet
 	srv := client.server
 	defer func() {
 		if re := recover(); re != nil {
@@ -450,7 +452,17 @@ func (client *client) readLoop() {
 			}
 		}
 		client.in <- packet
-		<-client.connected
+		select {
+		case <-client.connected:
+		case <-client.authNext:
+			// enhanced authentication continues: the packets read so far are accounted once the client id is known.
+			unaccounted = append(unaccounted, packet)
+			continue
+		}
+		for _, p := range unaccounted {
+			srv.statsManager.packetReceived(p, client.opts.ClientID)
+		}
+		unaccounted = nil
 		srv.statsManager.packetReceived(packet, client.opts.ClientID)
 		if client.server.config.Log.DumpPacket {
 			if ce := zaplog.Check(zapcore.DebugLevel, "received packet"); ce != nil {
@@ -638,6 +650,11 @@ func (client *client) connectWithTimeOut() (ok bool) {
 						AuthMethod: conn.Properties.AuthMethod,
 						AuthData:   authData,
 					},
+				}
+				// let the read loop fetch the client's answer to the challenge
+				select {
+				case client.authNext <- struct{}{}:
+				default:
 				}
 				continue
 			}
